@@ -108,6 +108,11 @@ func genPayload(t *rapid.T, p GenParams) []byte {
 		n = rapid.IntRange(2*hint, 5*hint).Draw(t, "pl-n")
 	default:
 		n = rapid.IntRange(64<<10, 256<<10).Draw(t, "pl-big")
+		// rarely a payload of several MiB: larger than any multiple of the small chunk sizes and than
+		// typical internal buffer thresholds ("multi-chunk-sized payloads")
+		if rapid.IntRange(0, 9).Draw(t, "pl-huge?") == 0 {
+			n = rapid.IntRange(4<<20, 9<<20).Draw(t, "pl-huge")
+		}
 	}
 	if p.MaxPayload > 0 && n > p.MaxPayload {
 		n = p.MaxPayload
